@@ -152,13 +152,15 @@ def naming_cases(draw):
   insts = []
   n = draw(st.integers(2, 4))
   lines = ["class Top( Component ):", "  def construct( s ):", "    s.in_ = InPort( Bits8 )"]
+  as_list = draw(st.integers(0, 2)) == 0          # the instances live in one Python list of sub-components
+  ctors = []
   for j in range(n):
-    if use_factory and draw(st.integers(0, 1)) == 0:
+    if use_factory and not as_list and draw(st.integers(0, 1)) == 0:
       kk = draw(st.integers(1, 3))
       ctor = f"mk_adder0( {kk} )()"
       key = ("factory", kk)
     else:
-      li = draw(st.integers(0, nleaf - 1))
+      li = 0 if as_list else draw(st.integers(0, nleaf - 1))
       k = draw(st.sampled_from(PARAM_VALUES))
       if k == "1.0": k = "1"
       mode = draw(st.sampled_from(["None", "None", "'x'", "'y'"]))
@@ -167,14 +169,18 @@ def naming_cases(draw):
       elif how == 1: ctor = f"Leaf{li}( nbits=8, k={k}, mode={mode} )"
       else: ctor = f"Leaf{li}( 8, k={k} )" if mode == "None" else f"Leaf{li}( 8, {k}, mode={mode} )"
       key = ("leaf", li, k, mode)
-    insts.append(key)
-    lines.append(f"    s.c{j} = {ctor}")
+    insts.append(key); ctors.append(ctor)
+  if as_list:
+    lines.append("    s.cs = [ " + ", ".join(ctors) + " ]")
+  for j in range(n):
+    inst = f"s.cs[{j}]" if as_list else f"s.c{j}"
+    if not as_list: lines.append(f"    s.c{j} = {ctors[j]}")
     lines.append(f"    s.o{j} = OutPort( Bits8 )")
-    lines.append(f"    s.c{j}.in_ //= s.in_")
-    lines.append(f"    s.o{j} //= s.c{j}.out")
+    lines.append(f"    {inst}.in_ //= s.in_")
+    lines.append(f"    s.o{j} //= {inst}.out")
   src.append("\n".join(lines) + "\n")
   ins = [draw(st.integers(0, 255)) for _ in range(3)]
-  return {"src": "\n".join(src), "n": n, "insts": [list(map(str, k)) for k in insts], "ins": ins}
+  return {"src": "\n".join(src), "n": n, "insts": [list(map(str, k)) for k in insts], "ins": ins, "as_list": as_list}
 
 
 def judge_b(case):
@@ -223,10 +229,11 @@ def judge_b(case):
           if got != exp:
             bad = [j for j in range(case["n"]) if got[j] != exp[j]]
             mods = {iname: mname for mname, iname in d.modules[topmod].instances}
-            shared = [j2 for j2 in range(case["n"]) if mods.get(f"c{j2}") == mods.get(f"c{bad[0]}")]
+            iname = (lambda j_: f"cs__{j_}") if case.get("as_list") else (lambda j_: f"c{j_}")
+            shared = [j2 for j2 in range(case["n"]) if mods.get(iname(j2)) == mods.get(iname(bad[0]))]
             kind = "factory_classes_share_name" if case["insts"][bad[0]][0] == "factory" else "param_values_share_str"
             return (f"alias:{kind}", f"{which}: instance c{bad[0]} {case['insts'][bad[0]]} computes {got[bad[0]]}, PyMTL {exp[bad[0]]} "
-                                     f"for in_={v}; module {mods.get('c%d' % bad[0])} is shared by instances "
+                                     f"for in_={v}; module {mods.get(iname(bad[0]))} is shared by instances "
                                      f"{[(j2, case['insts'][j2]) for j2 in shared]}")
       except SVElabError as ex:
         return (f"{which}:elab_error", str(ex)[:300])
@@ -244,7 +251,8 @@ def judge(case):
 
 @st.composite
 def cases_a(draw, n):
-  designs = [draw(rtl_gen.designs(translatable=True, wide=False, max_steps=4)) for _ in range(n)]
+  designs = [draw(rtl_gen.designs(translatable=True, wide=False, max_steps=4, min_depth=draw(st.sampled_from([0, 1, 2])),
+                                  child_bias=1)) for _ in range(n)]
   return {"kind": "A", "designs": designs, "hashseed": draw(st.integers(2, 2 ** 31 - 1))}
 
 
@@ -253,13 +261,17 @@ def size_of(design):
 
 
 def run_shard(ctx):
-  per_batch = 8 if ctx.tier == "quick" else 12
+  import time
+  per_batch = 6 if ctx.tier == "quick" else 12
+  half = time.time() + 0.5 * max(0.0, ctx.deadline - time.time())     # part A may use half of the budget
 
   @seed(ctx.hseed())
-  @ctx.settings(ctx.n(32, 640))
+  @ctx.settings(ctx.n(16, 640))
   @given(cases_a(per_batch))
   def ta(case):
-    if ctx.out_of_time(): return
+    if ctx.out_of_time() or time.time() > half:
+      ctx.budget_exhausted = True
+      return
     ctx.count(len(case["designs"]))
     ctx.label("determinism_designs", len(case["designs"]))
     v = judge_a(case)
@@ -282,6 +294,7 @@ def run_shard(ctx):
     v = judge_b(case)
     distinct = len({tuple(k) for k in case["insts"]}) >= 2
     if any(k[0] == "factory" for k in case["insts"]): ctx.label("factory_classes")
+    if case.get("as_list"): ctx.label("instances_in_a_list")
     if v is None and distinct: ctx.nontriv(["B", case["insts"]])
     ctx.judge(case, v)
     if ctx.evaluations % 97 == 0: ctx.sample({"kind": "B", "instances": case["insts"]})
